@@ -114,8 +114,40 @@ def negated_models_stream(ctx):
         do_case(ctx, {"ast": a, "A": {k: list(v) for k, v in A.items()}})
 
 
+def signed_nodes_over_compounds_stream(ctx):
+    """a threshold whose sign cannot be inferred from its value (value <= 0 with sign +1, value > 0 with sign -1) over integer
+    leaves around zero AND a sub-proposition: what assume() rebuilds must keep the sign it was given"""
+    rng = ctx.rng
+    for _ in range((60 if ctx.quick else 400) * (3 if ctx.search else 1)):
+        lf = lambda n_: {"c": "str", "id": n_}
+        lo = rng.randint(-3, 0); hi = rng.randint(0, 3)
+        x = {"c": "var", "id": "x", "lo": lo, "hi": max(hi, lo)}
+        comp = {"c": rng.choice(["Any", "All", "AtMost"]), "args": [lf("p"), lf("q")]}
+        if comp["c"] == "AtMost": comp["v"] = 1
+        if rng.random() < 0.4: comp["id"] = rng.choice(["B", "b1"])
+        sign = rng.choice([1, -1])
+        v = rng.randint(-3, 0) if sign == 1 else rng.randint(1, 3)
+        if rng.random() < 0.25: v = rng.randint(-2, 2)
+        kids = [x, comp] + ([lf("r")] if rng.random() < 0.4 else [])
+        a = {"c": "AtLeast", "v": v, "sign": sign, "args": kids}
+        if rng.random() < 0.5: a["id"] = "A"
+        if rng.random() < 0.3: a = {"c": rng.choice(["All", "Any"]), "args": [a, lf("w")]}
+        try:
+            o = build(a); t = snap(o)
+            if is_var(o) or not well_formed(t) or o.errors(): continue
+        except Exception:
+            continue
+        A = {}
+        for name, (l_, h_) in leaves_of(t).items():
+            if rng.random() < 0.3:
+                c = pick_in(rng, l_, h_); A[name] = (c, c)
+        ctx.tags["sign-not-inferable-over-a-sub-proposition"] += 1
+        do_case(ctx, {"ast": a, "A": {k: list(v_) for k, v_ in A.items()}})
+
+
 def run(ctx):
     negated_models_stream(ctx)
+    signed_nodes_over_compounds_stream(ctx)
     n_models = (150 if ctx.quick else 800) * (3 if ctx.search else 1)
     for _ in range(n_models):
         a, o, t = gen_valid(ctx.rng, ctx.quick, prefix_p=0.2, empty_p=0.04)
